@@ -9,6 +9,9 @@ Case kinds (field "k"):
   load  _load_dataset(name, split, return_X_y) for split in (train, test, None) and both forms: bundled ("ds") or a
         generated data set written to a temporary extract_path ("gen": {"train": {...}, "test": {...}})
 
+  hist  a HISTORY of loader calls on one data set in one process: {"ds"| "gen", "calls": [[split, return_X_y, mutation|None], ...]}
+        (oracle only; the model's loader is a pure function, so it has no history to compare)
+
 Strings travel percent-encoded (same convention as lean/SkVerif/Drv/C18.lean).
 Result of a loader:  ok!<ndims>!<N | L labels>!<dims '|' instances ';' values ','>  or  E:<kind>.
 """
@@ -438,6 +441,177 @@ def _load(c):
         return " ".join(parts) + " forms=" + "".join(forms) + " idx=" + "".join(idx)
 
 
+
+# ----------------------------------------------------------------------------- loader call histories
+LABEL_COLS = ("class_val", "class_vals")
+
+
+def _cell(v):
+    if isinstance(v, pd.Series):
+        return _series(v)
+    return "obj:" + enc(str(v))
+
+
+def _digest(parts):
+    import hashlib
+    return hashlib.sha1("\x00".join(parts).encode("utf-8", "replace")).hexdigest()[:16]
+
+
+def _dx(X, cols):
+    return _digest(["|".join(_cell(v) for v in list(X[c])) for c in cols])
+
+
+def _dy(y):
+    return _digest([str(v) for v in list(y)])
+
+
+def _obs_call(res, rxy):
+    """(cols, nrows, digest of the data columns, digest of the labels, digest of the whole object)"""
+    if rxy:
+        X, y = res
+        cols = [str(c) for c in X.columns]
+        return cols, len(X), _dx(X, list(X.columns)), _dy(y), _digest([_dx(X, list(X.columns)), _dy(y), ",".join(cols), repr(list(X.index))])
+    fr = res
+    cols = [str(c) for c in fr.columns]
+    lab = [c for c in fr.columns if c in LABEL_COLS]
+    data = [c for c in fr.columns if c not in LABEL_COLS]
+    dy = _dy(fr[lab[-1]]) if lab else "-"
+    return cols, len(fr), _dx(fr, data), dy, _digest([_dx(fr, list(fr.columns)), ",".join(cols), repr(list(fr.index))])
+
+
+def _mutate(res, rxy, kind):
+    """what a user may do to the object a loader returned"""
+    X = res[0] if rxy else res
+    if kind == "addcol":
+        X["junk"] = 0
+    elif kind == "cell":
+        X.iloc[0, 0].iloc[0] = 12345.678            # the nested series object itself
+    elif kind == "setcell":
+        X.iat[0, 0] = pd.Series([9.0, 9.0])
+    elif kind == "droprow":
+        X.drop(X.index[0], inplace=True)
+    elif kind == "labels":
+        if rxy:
+            y = res[1]
+            if isinstance(y, np.ndarray):
+                y[0] = "zz"
+            else:
+                y.iloc[0] = "zz"
+        elif any(c in LABEL_COLS for c in X.columns):
+            X.iloc[0, list(X.columns).index([c for c in X.columns if c in LABEL_COLS][0])] = "zz"
+    elif kind == "rename":
+        X.rename(columns={X.columns[0]: "renamed"}, inplace=True)
+
+
+def _hist(c):
+    import sktime.datasets.base as base
+    from sktime.utils.data_io import load_from_tsfile_to_dataframe
+    with _Tmp() as d:
+        if "ds" in c:
+            ds = c["ds"]
+            if ds in LOADERS:
+                f = getattr(base, LOADERS[ds])
+                call = lambda split, rxy: f(split=split, return_X_y=rxy)
+            else:
+                call = lambda split, rxy: base.load_UCR_UEA_dataset(ds, split=split, return_X_y=rxy)
+            ptr = os.path.join(_data_dir(), ds, ds + "_TRAIN.ts")
+            pte = os.path.join(_data_dir(), ds, ds + "_TEST.ts")
+        else:
+            name = "GenSet"
+            os.makedirs(os.path.join(d, name))
+            tr, te = _load_texts(c)
+            ptr = _write_tmp(os.path.join(d, name), name + "_TRAIN.ts", tr)
+            pte = _write_tmp(os.path.join(d, name), name + "_TEST.ts", te)
+            call = lambda split, rxy: base.load_UCR_UEA_dataset(name, split=split, return_X_y=rxy, extract_path=d)
+        # reference = what each call returns in a fresh state: the two files parsed directly, train followed by test
+        try:
+            Xtr, ytr = load_from_tsfile_to_dataframe(ptr)
+            Xte, yte = load_from_tsfile_to_dataframe(pte)
+            cols = list(Xtr.columns)
+            Xno = pd.DataFrame({c_: list(Xtr[c_]) + list(Xte[c_]) for c_ in cols})
+            ref = {"train": (_dx(Xtr, cols), _dy(ytr), len(Xtr)), "test": (_dx(Xte, cols), _dy(yte), len(Xte)),
+                   "none": (_dx(Xno, cols), _dy(list(ytr) + list(yte)), len(Xno))}
+            refcols = "+".join(enc(str(c_)) for c_ in cols)
+        except Exception as e:
+            return "ref=" + canon_err(e)
+        held, recs = [], []
+        for i, (split, rxy, mut) in enumerate(c["calls"]):
+            try:
+                res = call(split, rxy)
+                if mut:
+                    _mutate(res, rxy, mut)
+                cols_i, n, dx, dy, whole = _obs_call(res, rxy)
+                if mut:      # the observation of a mutated object is only used as its snapshot
+                    recs.append([i, split or "none", show_bool(rxy), mut, "-", "-", "-", "-"])
+                else:
+                    recs.append([i, split or "none", show_bool(rxy), "-", "+".join(enc(x) for x in cols_i), str(n), dx, dy])
+                held.append((res, rxy, whole))
+            except Exception as e:
+                recs.append([i, split or "none", show_bool(rxy), mut or "-", canon_err(e), "-", "-", "-"])
+                held.append(None)
+        kept = []
+        for h in held:
+            if h is None:
+                kept.append("e")
+            else:
+                try:
+                    kept.append("T" if _obs_call(h[0], h[1])[4] == h[2] else "F")
+                except Exception:
+                    kept.append("F")
+        return "refcols=%s ref=%s calls=%s kept=%s" % (
+            refcols, ";".join("%s:%s:%s:%d" % (k_, v[0], v[1], v[2]) for k_, v in ref.items()),
+            ";".join(":".join(str(x) for x in r) for r in recs), "".join(kept))
+
+
+def _hist_oracle(c, out):
+    d = _kv(out)
+    who = c.get("ds", "generated set")
+    if d.get("ref", "E:").startswith("E:") or "calls" not in d:
+        return [("loader-history:reference-load-failed", "the TRAIN/TEST files of %s do not load directly: %s" % (who, d.get("ref")))]
+    ref = {}
+    for part in d["ref"].split(";"):
+        k_, dx, dy, n = part.split(":")
+        ref[k_] = (dx, dy, n)
+    refcols = d["refcols"].split("+")
+    fails = []
+    recs = [r.split(":") for r in d["calls"].split(";")]
+    calls = c["calls"]
+    mutated_before = False
+    seen = {}
+    for r in recs:
+        i, split, rxy, mut, cols, n, dx, dy = r
+        i = int(i)
+        desc = "call %d (split=%s, return_X_y=%s) of history %s on %s" % (i, split, rxy == "T", [[s_, x_, m_] for s_, x_, m_ in calls[:i + 1]], who)
+        if cols.startswith("E:"):
+            fails.append(("loader-history:call-raised", desc + " raised " + cols))
+            break
+        if mut != "-":
+            mutated_before = True
+            continue
+        cl = cols.split("+")
+        want_cols = refcols if rxy == "T" else refcols + ["class_val"]
+        bad = (cl != want_cols) or (dx, dy, n) != ref[split]
+        if bad:
+            key = "loader-history:user-mutation-leaks" if mutated_before else "loader-history:differs-from-fresh-call"
+            fails.append((key, desc + ": columns %s rows %s; a fresh call gives columns %s rows %s%s" % (
+                [dec(x) for x in cl], n, [dec(x) for x in want_cols], ref[split][2],
+                "" if (dx, dy) == ref[split][:2] or cl != want_cols else " (values or labels differ)")))
+            break
+        # (iv) every pair of calls of the same split agrees (either form)
+        if split in seen and seen[split][1:] != (dx, dy):
+            fails.append(("loader-history:forms-differ", desc + " disagrees with call %d of the same split" % seen[split][0]))
+            break
+        seen.setdefault(split, (i, dx, dy))
+    kept = d.get("kept", "")
+    for i, k_ in enumerate(kept):
+        if k_ == "F":
+            fails.append(("loader-history:earlier-result-changed",
+                          "the object returned by call %d (split=%s, return_X_y=%s) was changed by later loader calls; history %s on %s"
+                          % (i, calls[i][0], calls[i][1], [list(x) for x in calls], who)))
+            break
+    return fails
+
+
 def run_real(c):
     k = c["k"]
     if k == "rt":
@@ -457,6 +631,8 @@ def run_real(c):
         return _fmt(c)
     if k == "load":
         return _load(c)
+    if k == "hist":
+        return _hist(c)
     raise ValueError(k)
 
 
@@ -490,6 +666,8 @@ def to_line(c):
     if k == "load":
         tr, te = _load_texts(c)
         return "C18 load %s %s" % (enc(tr), enc(te))
+    if k == "hist":
+        return None     # oracle only: the model's loader is a pure function of the two files
     raise ValueError(k)
 
 
@@ -534,6 +712,8 @@ def in_domain(c):
 def oracle(c, out):
     k = c["k"]
     fails = []
+    if k == "hist":
+        return _hist_oracle(c, out)
     if k == "rt":
         if not in_domain(c):
             return fails
